@@ -195,6 +195,11 @@ def binop(it, op, a, b, node):
         tb = getattr(b, "term", None) if not isinstance(b, VConst) else num_term(b)
         u.term = term_binop(op, ta, tb) if ta is not None and tb is not None else None
         u.origin = getattr(a, "origin", None) or getattr(b, "origin", None)
+        from .values import fingerprint as _fp
+
+        fa_, fb_ = _fp(a), _fp(b)
+        if fa_ is not None and fb_ is not None:
+            u.fp = ("binop", op, fa_, fb_)
         return u
     if isinstance(b, (VList, VTuple)) and isinstance(a, VConst) and op == "Mult":
         a, b = b, a
@@ -384,6 +389,8 @@ def compare(it, op, a, b, node):
             r = a.name == b.name
         elif isinstance(a, VObj) and isinstance(b, VObj):
             r = a.inst is b.inst
+        elif isinstance(a, (VList, VDict)) and isinstance(b, (VList, VDict)):
+            r = a.obj is b.obj  # a list / dictionary is the object that was created; every other one is another object
         elif isinstance(a, VUnknown) and isinstance(b, VUnknown) and a.kind == b.kind and a.kind in ("dtype", "device", "layout") and a.tag == b.tag:
             r = True
         elif isinstance(a, VUnknown) or isinstance(b, VUnknown):
@@ -639,6 +646,14 @@ def subscript(it, base, idx, node, for_store=False):
             raise RaiseEx("KeyError", it.site(node), repr(k))
         if getattr(d, "elem", None) is not None:
             return d.elem
+        if not ok and d.items is not None and len(d.items) == 1 and not d.extra_unknown:
+            # a key this path found present in a dictionary that holds exactly one entry is that entry's key
+            for c_ in it.conds:
+                u_ = c_[3] if len(c_) > 3 else None
+                ops_ = getattr(u_, "operands", None)
+                if (isinstance(u_, VUnknown) and u_.tag == "in" and ops_ is not None and c_[2] is (not getattr(u_, "negated", False))
+                        and isinstance(ops_[1], VDict) and ops_[1].obj is d and dict_key(ops_[0]) == (ok, k)):
+                    return next(iter(d.items.values()))
         if not ok and d.items and all(isinstance(x, VTens) for x in d.items.values()):
             vals = list(d.items.values())
             shapes = {x.shape for x in vals}
